@@ -75,6 +75,17 @@ def _rand_array(rng, palette, shape, skew=None):
     n = 1
     for s in shape:
         n *= s
+    if skew is None and n >= 4 and len(palette) >= 2 and rng.random() < (0.55 if n >= 19 else 0.2):
+        # near-tie: the two most frequent values differ by zero, one or two occurrences
+        a, b = rng.sample(list(palette), 2)
+        rest = rng.choice((0, n // 6, n // 3)) if len(palette) > 2 else 0
+        lead = rng.choice((0, 1, 1, 1, 1, 2))
+        nb = max(0, (n - rest - lead) // 2)
+        na = n - rest - nb
+        others = [v for v in palette if v not in (a, b)] or [a]
+        vals = [a] * na + [b] * nb + [rng.choice(others) for _ in range(rest)]
+        rng.shuffle(vals)
+        return numpy.array(vals, dtype=numpy.int64).reshape(shape)
     if skew is None:
         skew = rng.random()
     weights = [skew ** i + 0.02 for i in range(len(palette))]
@@ -105,6 +116,7 @@ class Machine:
         self.step = 0
         self.pending_c15 = []
         self.big_ok = True
+        self.hint = None
 
     # ------------------------------------------------------------------ violations
     def fail(self, prop, vclass, where, message):
@@ -114,6 +126,10 @@ class Machine:
 
     # ------------------------------------------------------------------ generation
     def gen_op(self, rng, palette):
+        hint, self.hint = self.hint, None
+        if hint is not None and hint < len(self.slots) and rng.random() < 0.7:
+            # a freshly built near-tie index: let the library choose its common right away
+            return {"op": "shift_common", "slot": hint, "to": None}
         if not self.slots:
             kind = rng.choice(("new", "new", "from_array"))
         else:
@@ -140,10 +156,10 @@ class Machine:
     def _shape(self, rng, rows=None):
         if rows is None:
             r = rng.random()
-            if r < 0.90:
+            if r < 0.78:
                 rows = rng.choice((0, 1, 2, 3, 4, 5, 6, 8))
             elif r < 0.985:
-                rows = rng.choice((12, 17, 30, 40))
+                rows = rng.choice((12, 17, 19, 21, 22, 23, 30, 37, 40, 64, 100))
             elif r < 0.9985 or not self.big_ok:
                 rows = rng.choice((257, 300))  # row ids beyond one byte
             else:
@@ -162,8 +178,17 @@ class Machine:
     def gen_new(self, rng, palette, shape=None):
         shape = shape or self._shape(rng)
         a = _rand_array(rng, palette, shape)
-        return {"op": "new", "dst": self._dst(rng), "shape": list(shape), "values": a.ravel().tolist(),
-                "common": _pick_common(rng, a, palette), "strided": rng.random() < 0.12}
+        dst = self._dst(rng)
+        common = _pick_common(rng, a, palette)
+        if a.size >= 19:
+            vals, counts = numpy.unique(a, return_counts=True)
+            top = numpy.sort(counts)[-2:]
+            if len(top) == 2 and top[1] - top[0] <= 2:
+                if rng.random() < 0.8:
+                    common = int(vals[numpy.argmax(counts)])
+                self.hint = dst
+        return {"op": "new", "dst": dst, "shape": list(shape), "values": a.ravel().tolist(),
+                "common": common, "strided": rng.random() < 0.12}
 
     def gen_new3d(self, rng, palette):
         shape = (rng.choice((0, 1, 2, 3, 4)), rng.choice((1, 2, 3)), rng.choice((1, 2, 3)))
@@ -203,6 +228,8 @@ class Machine:
             op["mapping"] = _pairs(mp)
         if a.size == 0 and op["common"] is None and op["mapping"] is None:
             op["common"] = rng.choice(palette)
+        if op["counts"] and op["mapping"] is None and rng.random() < 0.4:
+            op["zero_counts"] = [v for v in list(palette) + [9] if v not in present][:2]
         return op
 
     def gen_shift_common(self, rng, palette):
@@ -489,6 +516,10 @@ class Machine:
         if op["counts"]:
             vals, cnts = numpy.unique(a, return_counts=True)
             kw["counts"] = dict(zip(vals.tolist(), cnts.tolist()))
+            for extra in op.get("zero_counts", ()):
+                # a frequency table may also name categories that happen not to occur
+                kw["counts"].setdefault(extra, 0)
+                self.stats.count("probe_from_array_counts_name_absent_value")
         try:
             with warnings.catch_warnings():
                 warnings.simplefilter("ignore")
